@@ -168,6 +168,21 @@ class KernelFaults:
         self.plan = {k: (None if v is None else set(v)) for k, v in plan.items()}
         self.calls = {s: 0 for s in F5_SITES}
         self.fired = {s: 0 for s in F5_SITES}
+        self.raised = []  # the exception instances injected so far
+
+    def _mk(self, exc):
+        self.raised.append(exc)
+        return exc
+
+    def in_chain(self, e):
+        """Is one of the injected exceptions `e` itself or in its __cause__/__context__ chain?"""
+        seen = 0
+        while e is not None and seen < 20:
+            if any(e is x for x in self.raised):
+                return True
+            e = e.__cause__ or e.__context__
+            seen += 1
+        return False
 
     def _should_fail(self, site):
         i = self.calls[site]
@@ -193,17 +208,17 @@ class KernelFaults:
 
         def svd(*a, **k):
             if self._should_fail("svd"):
-                raise LinAlgError("simjd: injected SVD non-convergence")
+                raise self._mk(LinAlgError("simjd: injected SVD non-convergence"))
             return o_svd(*a, **k)
 
         def eigh(*a, **k):
             if self._should_fail("eigh"):
-                raise LinAlgError("simjd: injected eigh non-convergence")
+                raise self._mk(LinAlgError("simjd: injected eigh non-convergence"))
             return o_eigh(*a, **k)
 
         def pinv(*a, **k):
             if self._should_fail("pinv"):
-                raise RuntimeError("simjd: injected pinv failure")
+                raise self._mk(RuntimeError("simjd: injected pinv failure"))
             return o_pinv(*a, **k)
 
         def qp(*a, **k):
@@ -214,10 +229,10 @@ class KernelFaults:
         def solve(prob, *a, **k):
             if k.get("solver", None) == cvxpy.ECOS or (a and a[0] == cvxpy.ECOS):
                 if self._should_fail("ecos"):
-                    raise cvxpy.error.SolverError("simjd: injected ECOS failure")
+                    raise self._mk(cvxpy.error.SolverError("simjd: injected ECOS failure"))
             if k.get("solver", None) == cvxpy.CLARABEL or (a and a[0] == cvxpy.CLARABEL):
                 if self._should_fail("clarabel"):
-                    raise cvxpy.error.SolverError("simjd: injected CLARABEL failure")
+                    raise self._mk(cvxpy.error.SolverError("simjd: injected CLARABEL failure"))
             return o_solve(prob, *a, **k)
 
         torch.linalg.svd, torch.linalg.eigh, torch.linalg.pinv = svd, eigh, pinv
